@@ -212,6 +212,40 @@ fn run_cli(tokens: &[&str], errno: Option<i32>) -> String {
     outs.join(" ; ")
 }
 
+// ---------------------------------------------------------------------------------------------
+// TIDS <n> <order>   n TCP client contexts in this process, each on its own scripted transport; `order` is a
+// ','-list of context indices: one call (ReadHoldingRegisters, left waiting for a reply that never comes) on that
+// context per entry.  output: per context the transaction ids it transmitted, `.`-joined, contexts joined by `|`.
+// ---------------------------------------------------------------------------------------------
+fn run_tids(tokens: &[&str]) -> String {
+    let [n, order] = tokens else {
+        return "ERR tids".into();
+    };
+    let n: usize = n.parse().unwrap_or(1);
+    let mut ctxs = vec![];
+    for _ in 0..n {
+        let tr = Transport::new();
+        let shared = tr.0.clone();
+        ctxs.push((tokio_modbus::client::tcp::attach_slave(tr, Slave(1)), shared, Vec::<String>::new()));
+    }
+    for e in order.split(',') {
+        let Ok(i) = e.parse::<usize>() else {
+            return "ERR tidsorder".into();
+        };
+        let Some((ctx, shared, ids)) = ctxs.get_mut(i) else {
+            return "ERR tidsindex".into();
+        };
+        shared.lock().unwrap().accepted.clear();
+        {
+            let mut fut = Box::pin(ctx.call(Request::ReadHoldingRegisters(1, 1)));
+            let _ = drive(fut.as_mut(), shared, None, None);
+        }
+        let acc = shared.lock().unwrap().accepted.clone();
+        ids.push(if acc.len() >= 2 { format!("{}", u16::from(acc[0]) << 8 | u16::from(acc[1])) } else { "-".into() });
+    }
+    ctxs.iter().map(|(_, _, ids)| if ids.is_empty() { "-".to_string() } else { ids.join(".") }).collect::<Vec<_>>().join("|")
+}
+
 fn show_typed<T>(r: Polled<tokio_modbus::Result<T>>, f: impl Fn(&T) -> String) -> String {
     match r {
         Polled::Done(Ok(Ok(v))) => f(&v),
@@ -649,6 +683,7 @@ fn run_line(ctx: &mut SrvCtx, line: &str, errno: Option<i32>) -> String {
         "SERSRV" => live::run_sersrv(&t[1..]),
         "E2E" => live::run_e2e(&t[1..]),
         "ACCADDR" => live::run_accaddr(&t[1..]),
+        "TIDS" => run_tids(&t[1..]),
         "SURVIVE" => live::run_survive(&t[1..]),
         _ => "ERR cmd".into(),
     }
